@@ -556,7 +556,7 @@ theorem opsInv_step (hist : List Ev) (s : S) (e : Ev) (s' : S) (I : OpsInv hist 
               obtain ⟨_, _, n, _, hc | ⟨sl, _, _, _, _, _, rfl⟩⟩ := request_spec hr
               · obtain ⟨_, _, _, rfl⟩ := hc; rfl
               · rfl
-            rcases account_spec ha with ⟨_, rfl⟩ | ⟨_, _, rfl⟩ | ⟨_, _, _, rfl⟩ <;> exact h1
+            rcases account_spec ha with ⟨_, rfl⟩ | ⟨_, _, _, rfl⟩ | ⟨_, _, _, _, rfl⟩ <;> exact h1
           · obtain ⟨_, _, n, _, hc | ⟨sl, _, _, _, _, _, rfl⟩⟩ := request_spec hr
             · obtain ⟨_, _, _, rfl⟩ := hc; rfl
             · rfl
